@@ -16,7 +16,7 @@ PID = 'C16'
 JOB = 'checks.jobs:history_world'
 JOB_GEN = 'checks.jobs:gen_world'
 STAGES = ['test_all', 'fisher', 'match', 'combine']
-OBS_CONFIGS = [('core_maths', 3), ('core_maths', 4), ('osc_maths', 3), ('base_e_maths', 3), ('core_maths', 2), ('ext_maths', 2), ('core_maths', 5)]
+OBS_CONFIGS = [('core_maths', 3), ('core_maths', 4), ('osc_maths', 3), ('base_e_maths', 3), ('core_maths', 2), ('ext_maths', 2), ('core_maths', 5), ('core_maths', 1)]
 OTHER = [('ext_maths', 3), ('osc_maths', 2), ('base10_maths', 3), ('keep_duplicates', 2), ('core_maths', 5), ('base_e_maths', 2), ('ext_maths', 1),
          ('osc_maths', 4)]
 FIT_OPTS = dict(Niter_params=[2], Nconv_params=[1])
@@ -53,6 +53,9 @@ for _cfg in (('core_maths', 3), ('core_maths', 4)):
         DIRECTED.append(dict(cfg=_cfg, kind='gen', P_obs=_P, P_first=_P, ops=['gen_faulty_inproc', 'gen_faulty_inproc']))
 DIRECTED.append(dict(cfg=('core_maths', 3), kind='fit', stage='combine', P_obs=1, P_first=1, ipe=False, prior_changed=True, ops=['pipe_same']))
 DIRECTED.append(dict(cfg=('core_maths', 4), kind='fit', stage='combine', P_obs=2, P_first=2, ipe=False, prior_changed=True, ops=['pipe_same', 'pipe_other_like']))
+for _st in STAGES:
+    DIRECTED.append(dict(cfg=('core_maths', 1), kind='fit', stage=_st, P_obs=1, P_first=1, ipe=False, ops=['pipe_synth', 'pipe_synth']))
+    DIRECTED.append(dict(cfg=('core_maths', 1), kind='fit', stage=_st, P_obs=2, P_first=3, ipe=False, ops=['pipe_synth', 'restart:2']))
 for _st in STAGES:
     DIRECTED.append(dict(cfg=('core_maths', 3), kind='fit', stage=_st, P_obs=1, P_first=2, ipe=False, ops=['pipe_synth']))
 DIRECTED.append(dict(cfg=('core_maths', 4), kind='gen', P_obs=1, P_first=1, ops=['pipe_synth']))
@@ -93,8 +96,8 @@ def draw_history(seed, i, quick, recipe=None):
     runname, n = obs_cfg
     kind = 'gen' if rng.random() < 0.45 else 'fit'
     kind = recipe.get('kind', kind)
-    if kind == 'fit' and n < 3:
-        runname, n = 'core_maths', 3
+    if kind == 'fit' and n < 3 and not recipe.get('cfg'):
+        runname, n = ('core_maths', 3) if rng.random() < 0.6 else ('core_maths', rng.choice([1, 2]))
     P_obs = rng.choice([1, 1, 2])
     P_obs = recipe.get('P_obs', P_obs)
     like_obs = dict(cls='Gauss', data_file='data.txt', run_name='obs', data_dir='user', fn_set=runname)
@@ -199,7 +202,9 @@ def draw_history(seed, i, quick, recipe=None):
             desc.append('pipeline other basis %s' % other_basis + (' (ipe)' if o.get('ignore_previous_eqns') else ''))
         elif c < 0.89:
             # a complete pipeline on a hand-written complexity-11 library (raises the recursion limit, 5-column tables)
-            need_like('Lsyn', dict(cls='Gauss', data_file='data.txt', run_name='syn', data_dir='user', fn_set='synth11'))
+            # half of the time under the SAME run name as the observed likelihood: complexity-11 outputs and partial files
+            # share the directories of the observed complexity-1..5 run
+            need_like('Lsyn', dict(cls='Gauss', data_file='data.txt', run_name=rng.choice(['syn', 'obs']), data_dir='user', fn_set='synth11'))
             cur().extend(pipeline('Lsyn', 11, opts=dict(FIT_OPTS)))
             synth[0] = 11
             desc.append('pipeline synthetic complexity 11')
